@@ -135,12 +135,22 @@ func propC17(rt *rapid.T, t *testing.T, c *ev.Collector) {
 		return nil
 	}
 	subAlive := map[string]bool{s1.Addr(): true, s2.Addr(): true}
-	w.C.AdvanceEpoch()
+	everOwner := map[string]map[string]bool{}
+	// start with one extra project that already owns two pool keys
+	if _, err := addProject(w, s1, "pa", true, nil, pool[:2], nil); err != nil {
+		harnessFatal(rt, "setup addProject: %v", err)
+	}
+	m.born(projID(s1, "pa"), e0)
+	for _, k := range pool[:2] {
+		m.set(k.Addr.String(), e0, projID(s1, "pa"))
+		everOwner[k.Addr.String()] = map[string]bool{projID(s1, "pa"): true}
+	}
+	// some cases start with a full chain memory, so that the earliest epoch is far behind
+	w.C.AdvanceEpochs(rapid.SampledFrom([]int{1, 1, 4, 10}).Draw(rt, "warmupEpochs"))
 	w.C.Hist = nil
 
 	cls := map[string]int{}
 	moved, charged := 0, 0
-	everOwner := map[string]map[string]bool{}
 	sess := uint64(1)
 	nextEpoch := func() uint64 {
 		n, err := ts.Keepers.Epochstorage.GetNextEpoch(ts.Ctx, w.C.Height())
